@@ -138,16 +138,16 @@ Qed.
 Definition cell_ren (m : list (Z * Z)) (c : cell) : Z -> Z := ren (restrict (c_surfs c) m).
 
 Lemma cell_dedup_geom : forall m c,
-  c_geom (cell_dedup m c) = map_leaves (cell_ren m c) (c_geom c).
+  c_geom (cell_dedup_old m c) = map_leaves (cell_ren m c) (c_geom c).
 Proof.
-  intros m c. unfold cell_dedup, cell_ren.
+  intros m c. unfold cell_dedup_old, cell_ren.
   destruct (restrict (c_surfs c) m) as [|kv nd] eqn:Hr.
   - symmetry. apply map_leaves_id. intros n _. reflexivity.
   - simpl. apply hs_dedup_spec.
 Qed.
 
-Lemma cell_dedup_num : forall m c, c_num (cell_dedup m c) = c_num c.
-Proof. intros m c. unfold cell_dedup. destruct (restrict (c_surfs c) m); reflexivity. Qed.
+Lemma cell_dedup_num : forall m c, c_num (cell_dedup_old m c) = c_num c.
+Proof. intros m c. unfold cell_dedup_old. destruct (restrict (c_surfs c) m); reflexivity. Qed.
 
 Lemma cell_ren_cases : forall m c n,
   cell_ren m c n = n \/ lookup n m = Some (cell_ren m c n).
@@ -211,7 +211,7 @@ Proof.
       apply lookup_dict_set_neq. intro; subst. rewrite Z.eqb_refl in E. discriminate.
 Qed.
 
-(* ========================================================================= find_dups *)
+(* ========================================================================= find_dups_old *)
 Lemma filter_res_spec : forall {A} (f : A -> res bool) l r,
   filter_res f l = Ok r -> forall x, In x r <-> In x l /\ f x = Ok true.
 Proof.
@@ -228,29 +228,29 @@ Proof.
 Qed.
 
 Lemma find_dups_spec : forall tol s all ms,
-  find_dups tol s all = Ok ms -> forall x, In x ms <-> In x all /\ candidate tol s x = Ok true.
+  find_dups_old tol s all = Ok ms -> forall x, In x ms <-> In x all /\ candidate_old tol s x = Ok true.
 Proof. intros tol s all ms H. exact (filter_res_spec _ _ _ H). Qed.
 
-Lemma candidate_same_kind : forall tol a b, candidate tol a b = Ok true -> same_kind a b = true.
+Lemma candidate_same_kind : forall tol a b, candidate_old tol a b = Ok true -> same_kind a b = true.
 Proof.
-  intros tol a b. unfold candidate.
+  intros tol a b. unfold candidate_old.
   destruct (periodic_old a); [discriminate|].
   destruct (same_kind a b); [reflexivity | simpl; discriminate].
 Qed.
 
-Lemma candidate_num_neq : forall tol a b, candidate tol a b = Ok true -> s_num b <> s_num a.
+Lemma candidate_num_neq : forall tol a b, candidate_old tol a b = Ok true -> s_num b <> s_num a.
 Proof.
   intros tol a b H. apply candidate_same_kind in H. unfold same_kind in H.
   apply andb_true_iff in H. destruct H as [H _]. apply negb_true_iff in H. apply Z.eqb_neq in H. exact H.
 Qed.
 
-Lemma candidate_type_eq : forall tol a b, candidate tol a b = Ok true -> s_type b = s_type a.
+Lemma candidate_type_eq : forall tol a b, candidate_old tol a b = Ok true -> s_type b = s_type a.
 Proof.
   intros tol a b H. apply candidate_same_kind in H. unfold same_kind in H.
   apply andb_true_iff in H. destruct H as [_ H]. apply String.eqb_eq in H. exact H.
 Qed.
 
-(* ========================================================================= invariants of the scan *)
+(* ========================================================================= invariants of the scan_old *)
 Section Scan.
   Variable tol : Q.
   Variable all : list surface.
@@ -259,10 +259,10 @@ Section Scan.
   Definition inv_basic (del : list Z) (m : list (Z * Z)) : Prop :=
     (forall n, In n del <-> lookup n m <> None) /\
     (forall d s, lookup d m = Some s ->
-       exists sd ss, In sd all /\ In ss all /\ s_num sd = d /\ s_num ss = s /\ candidate tol ss sd = Ok true).
+       exists sd ss, In sd all /\ In ss all /\ s_num sd = d /\ s_num ss = s /\ candidate_old tol ss sd = Ok true).
 
   Lemma inv_basic_step : forall s ms del m,
-    In s all -> find_dups tol s all = Ok ms -> inv_basic del m ->
+    In s all -> find_dups_old tol s all = Ok ms -> inv_basic del m ->
     inv_basic (fst (record_matches (map s_num ms) (s_num s) del m))
               (snd (record_matches (map s_num ms) (s_num s) del m)).
   Proof.
@@ -280,35 +280,35 @@ Section Scan.
   Qed.
 
   Lemma scan_loop_inv_basic : forall todo del m del' m',
-    incl todo all -> inv_basic del m -> scan_loop tol all todo del m = Ok (del', m') -> inv_basic del' m'.
+    incl todo all -> inv_basic del m -> scan_loop_old tol all todo del m = Ok (del', m') -> inv_basic del' m'.
   Proof.
     induction todo as [|s r IH]; intros del m del' m' Hincl Hinv H; simpl in H.
     - inversion H; subst. exact Hinv.
     - assert (Hr : incl r all) by (intros x Hx; apply Hincl; right; exact Hx).
       destruct (memZ (s_num s) del).
       + eapply IH; eauto.
-      + destruct (find_dups tol s all) as [ms|] eqn:Hf; [|discriminate].
+      + destruct (find_dups_old tol s all) as [ms|] eqn:Hf; [|discriminate].
         destruct (record_matches (map s_num ms) (s_num s) del m) as [d1 m1] eqn:Hrm.
         eapply IH; [exact Hr | | exact H].
         pose proof (inv_basic_step s ms del m (Hincl s (or_introl eq_refl)) Hf Hinv) as Hstep.
         rewrite Hrm in Hstep. exact Hstep.
   Qed.
 
-  Lemma scan_inv_basic : forall del m, scan tol all = Ok (del, m) -> inv_basic del m.
+  Lemma scan_inv_basic : forall del m, scan_old tol all = Ok (del, m) -> inv_basic del m.
   Proof.
-    intros del m H. unfold scan in H.
+    intros del m H. unfold scan_old in H.
     eapply scan_loop_inv_basic; [apply incl_refl | | exact H].
     split; [intro n; simpl; split; [tauto | intro H0; apply H0; reflexivity] | intros d s H0; discriminate].
   Qed.
 
   (* --- no survivor is itself removed, provided the test of the code is symmetric *)
   Definition cand_sym : Prop :=
-    forall a b, In a all -> In b all -> candidate tol a b = Ok true -> candidate tol b a = Ok true.
+    forall a b, In a all -> In b all -> candidate_old tol a b = Ok true -> candidate_old tol b a = Ok true.
 
   Definition inv_chain (del : list Z) (m : list (Z * Z)) : Prop :=
     (forall d s, lookup d m = Some s -> ~ In s del) /\
     (forall d ss, In ss all -> lookup d m = Some (s_num ss) ->
-       forall x, In x all -> candidate tol ss x = Ok true -> In (s_num x) del).
+       forall x, In x all -> candidate_old tol ss x = Ok true -> In (s_num x) del).
 
   Hypothesis Hnodup : NoDup (map s_num all).
   Hypothesis Hsym : cand_sym.
@@ -325,12 +325,12 @@ Section Scan.
   Qed.
 
   Lemma inv_chain_step : forall s ms del m,
-    In s all -> ~ In (s_num s) del -> find_dups tol s all = Ok ms -> inv_chain del m ->
+    In s all -> ~ In (s_num s) del -> find_dups_old tol s all = Ok ms -> inv_chain del m ->
     inv_chain (fst (record_matches (map s_num ms) (s_num s) del m))
               (snd (record_matches (map s_num ms) (s_num s) del m)).
   Proof.
     intros s ms del m Hs Hnd Hf [Hv Hw].
-    assert (Hms : forall x, In x ms <-> In x all /\ candidate tol s x = Ok true)
+    assert (Hms : forall x, In x ms <-> In x all /\ candidate_old tol s x = Ok true)
       by (apply find_dups_spec; exact Hf).
     split.
     - intros d v. rewrite record_matches_lookup, record_matches_del.
@@ -352,14 +352,14 @@ Section Scan.
   Qed.
 
   Lemma scan_loop_inv_chain : forall todo del m del' m',
-    incl todo all -> inv_chain del m -> scan_loop tol all todo del m = Ok (del', m') -> inv_chain del' m'.
+    incl todo all -> inv_chain del m -> scan_loop_old tol all todo del m = Ok (del', m') -> inv_chain del' m'.
   Proof.
     induction todo as [|s r IH]; intros del m del' m' Hincl Hinv H; simpl in H.
     - inversion H; subst. exact Hinv.
     - assert (Hr : incl r all) by (intros x Hx; apply Hincl; right; exact Hx).
       destruct (memZ (s_num s) del) eqn:Hmem.
       + eapply IH; eauto.
-      + destruct (find_dups tol s all) as [ms|] eqn:Hf; [|discriminate].
+      + destruct (find_dups_old tol s all) as [ms|] eqn:Hf; [|discriminate].
         destruct (record_matches (map s_num ms) (s_num s) del m) as [d1 m1] eqn:Hrm.
         eapply IH; [exact Hr | | exact H].
         apply memZ_false in Hmem.
@@ -367,9 +367,9 @@ Section Scan.
         rewrite Hrm in Hstep. exact Hstep.
   Qed.
 
-  Lemma scan_inv_chain : forall del m, scan tol all = Ok (del, m) -> inv_chain del m.
+  Lemma scan_inv_chain : forall del m, scan_old tol all = Ok (del, m) -> inv_chain del m.
   Proof.
-    intros del m H. unfold scan in H.
+    intros del m H. unfold scan_old in H.
     eapply scan_loop_inv_chain; [apply incl_refl | | exact H].
     split; [intros d s H0; discriminate | intros d ss _ H0; discriminate].
   Qed.
@@ -500,15 +500,15 @@ Qed.
 
 (* ========================================================================= the whole call, decomposed *)
 Lemma dedup_inv : forall tol P P',
-  dedup tol P = Ok P' ->
+  dedup_old tol P = Ok P' ->
   exists del m surfs2,
-    scan tol (p_surfs P) = Ok (del, m) /\
+    scan_old tol (p_surfs P) = Ok (del, m) /\
     map_res (surface_update_pointers (p_surfs P) (p_trs P)) (p_surfs P) = Ok surfs2 /\
     P' = mkProb (remove_all del surfs2)
-                (map cell_update_pointers (map (cell_dedup m) (p_cells P))) (p_trs P).
+                (map cell_update_pointers (map (cell_dedup_old m) (p_cells P))) (p_trs P).
 Proof.
-  intros tol P P' H. unfold dedup in H.
-  destruct (scan tol (p_surfs P)) as [[del m]|] eqn:Hs; [|discriminate].
+  intros tol P P' H. unfold dedup_old in H.
+  destruct (scan_old tol (p_surfs P)) as [[del m]|] eqn:Hs; [|discriminate].
   destruct (map_res (surface_update_pointers (p_surfs P) (p_trs P)) (p_surfs P)) as [s2|] eqn:Hm; [|discriminate].
   inversion H; subst. exists del, m, s2. auto.
 Qed.
@@ -535,7 +535,7 @@ Definition wf (P : problem) : Prop := NoDup (map s_num (p_surfs P)).
 
 (* --- every cell, structurally: a leaf-wise renaming that only touches keys of the map *)
 Theorem cells_structure : forall tol P P' del m,
-  scan tol (p_surfs P) = Ok (del, m) -> dedup tol P = Ok P' ->
+  scan_old tol (p_surfs P) = Ok (del, m) -> dedup_old tol P = Ok P' ->
   Forall2 (fun c c' =>
              c_num c' = c_num c /\
              exists f, (forall n, lookup n m = None -> f n = n) /\
@@ -557,7 +557,7 @@ Qed.
 
 (* --- the region of every cell is unchanged once merged surfaces are identified *)
 Theorem region_preserved : forall tol P P' del m,
-  scan tol (p_surfs P) = Ok (del, m) -> dedup tol P = Ok P' ->
+  scan_old tol (p_surfs P) = Ok (del, m) -> dedup_old tol P = Ok P' ->
   Forall2 (fun c c' =>
              c_num c' = c_num c /\
              forall es ec, identifies m es -> region es ec (c_geom c') = region es ec (c_geom c))
@@ -571,7 +571,7 @@ Qed.
 
 (* --- senses and operators are never changed; a cell without a removed leaf is not changed at all *)
 Theorem senses_preserved : forall tol P P' del m,
-  scan tol (p_surfs P) = Ok (del, m) -> dedup tol P = Ok P' ->
+  scan_old tol (p_surfs P) = Ok (del, m) -> dedup_old tol P = Ok P' ->
   Forall2 (fun c c' =>
              shape (c_geom c') = shape (c_geom c) /\
              ((forall n, In n (leaf_surfs (c_geom c)) -> ~ In n del) -> c_geom c' = c_geom c))
@@ -587,7 +587,7 @@ Qed.
 
 (* --- removed surfaces are gone from the collection; survivors keep their relative order *)
 Theorem removed_are_gone : forall tol P P' del m,
-  wf P -> scan tol (p_surfs P) = Ok (del, m) -> dedup tol P = Ok P' ->
+  wf P -> scan_old tol (p_surfs P) = Ok (del, m) -> dedup_old tol P = Ok P' ->
   (forall s', In s' (p_surfs P') -> ~ In (s_num s') del) /\
   map s_num (p_surfs P') = filter (fun n => negb (memZ n del)) (map s_num (p_surfs P)).
 Proof.
@@ -605,7 +605,7 @@ Qed.
 (* --- surfaces that are not removed are untouched when the old numbers are in sync *)
 Theorem survivors_untouched : forall tol P P' del m,
   wf P -> (forall s, In s (p_surfs P) -> in_sync (p_surfs P) (p_trs P) s) ->
-  scan tol (p_surfs P) = Ok (del, m) -> dedup tol P = Ok P' ->
+  scan_old tol (p_surfs P) = Ok (del, m) -> dedup_old tol P = Ok P' ->
   p_surfs P' = filter (fun s => negb (memZ (s_num s) del)) (p_surfs P).
 Proof.
   intros tol P P' del m Hwf Hsync Hs Hd. apply dedup_inv in Hd. destruct Hd as [del' [m' [s2 [Hs' [Hm ->]]]]].
@@ -617,7 +617,7 @@ Qed.
 (* --- no leaf refers to a removed surface: needs cell.surfaces to cover the leaves and a symmetric test *)
 Theorem no_dangling_leaf : forall tol P P' del m,
   wf P -> links P -> cand_sym tol (p_surfs P) ->
-  scan tol (p_surfs P) = Ok (del, m) -> dedup tol P = Ok P' ->
+  scan_old tol (p_surfs P) = Ok (del, m) -> dedup_old tol P = Ok P' ->
   forall c', In c' (p_cells P') -> forall n, In n (leaf_surfs (c_geom c')) -> ~ In n del.
 Proof.
   intros tol P P' del m Hwf Hl Hsym Hs Hd c' Hc' n Hn.
@@ -759,9 +759,9 @@ Lemma length_nil_iff : forall {A} (l l' : list A), List.length l = List.length l
 Proof. intros A l l' H. destruct l, l'; simpl in *; split; intro; try discriminate; reflexivity. Qed.
 
 Lemma tr_equiv_same : forall tol t t',
-  tr_shape_eq t t' -> (0 < tol)%Q -> tr_equivalent tol t t' = Ok true -> trdata_same tol (Some t) (Some t').
+  tr_shape_eq t t' -> (0 < tol)%Q -> tr_equivalent_old tol t t' = Ok true -> trdata_same tol (Some t) (Some t').
 Proof.
-  intros tol t t' [Hd Hr] Hpos H. unfold tr_equivalent in H. simpl.
+  intros tol t t' [Hd Hr] Hpos H. unfold tr_equivalent_old in H. simpl.
   destruct (Bool.eqb (t_deg t) (t_deg t')) eqn:Ed; simpl in H; [|discriminate].
   destruct (Bool.eqb (t_m2a t) (t_m2a t')) eqn:Em; simpl in H; [|discriminate].
   apply Bool.eqb_prop in Ed. apply Bool.eqb_prop in Em.
@@ -775,9 +775,9 @@ Proof.
 Qed.
 
 Lemma tr_equiv_sym : forall tol t t',
-  tr_shape_eq t t' -> tr_equivalent tol t t' = Ok true -> tr_equivalent tol t' t = Ok true.
+  tr_shape_eq t t' -> tr_equivalent_old tol t t' = Ok true -> tr_equivalent_old tol t' t = Ok true.
 Proof.
-  intros tol t t' [Hd Hr] H. unfold tr_equivalent in *.
+  intros tol t t' [Hd Hr] H. unfold tr_equivalent_old in *.
   destruct (Bool.eqb (t_deg t) (t_deg t')) eqn:Ed; simpl in H; [|discriminate].
   destruct (Bool.eqb (t_m2a t) (t_m2a t')) eqn:Em; simpl in H; [|discriminate].
   apply Bool.eqb_prop in Ed. apply Bool.eqb_prop in Em. rewrite <- Ed, <- Em, !Bool.eqb_reflx. simpl.
@@ -789,9 +789,9 @@ Proof.
     apply vec_loop_sym; assumption.
 Qed.
 
-Lemma tr_equiv_total : forall tol t t', tr_shape_eq t t' -> exists b, tr_equivalent tol t t' = Ok b.
+Lemma tr_equiv_total : forall tol t t', tr_shape_eq t t' -> exists b, tr_equivalent_old tol t t' = Ok b.
 Proof.
-  intros tol t t' [Hd Hr]. unfold tr_equivalent.
+  intros tol t t' [Hd Hr]. unfold tr_equivalent_old.
   destruct (negb (Bool.eqb (t_deg t) (t_deg t'))); [eexists; reflexivity|].
   destruct (negb (Bool.eqb (t_m2a t) (t_m2a t'))); [eexists; reflexivity|].
   destruct (vec_loop_total tol _ _ Hd) as [b Hb]. rewrite Hb. destruct b; [|eexists; reflexivity].
@@ -822,9 +822,9 @@ Proof. intros A [|x [|y [|z [|w l]]]] H; simpl in H; try discriminate. exists x,
 
 Lemma tr_check_same : forall tol a b,
   (forall t t', s_tr a = Some t -> s_tr b = Some t' -> tr_shape_eq t t') -> (0 < tol)%Q ->
-  tr_check tol a b = Ok true -> trdata_same tol (s_tr a) (s_tr b).
+  tr_check_old tol a b = Ok true -> trdata_same tol (s_tr a) (s_tr b).
 Proof.
-  intros tol a b Hsh Hpos H. unfold tr_check in H.
+  intros tol a b Hsh Hpos H. unfold tr_check_old in H.
   destruct (s_tr a) as [t|], (s_tr b) as [t'|]; try discriminate.
   - apply tr_equiv_same; auto.
   - exact I.
@@ -835,13 +835,13 @@ Lemma candidate_true_dup : forall tol a b,
   (s_type a = s_type b -> s_refl a = s_refl b /\ s_white a = s_white b) ->
   periodic_visible a -> periodic_visible b ->
   (forall t t', s_tr a = Some t -> s_tr b = Some t' -> tr_shape_eq t t') ->
-  candidate tol a b = Ok true -> true_dup tol a b.
+  candidate_old tol a b = Ok true -> true_dup tol a b.
 Proof.
   intros tol a b [Hca Haa] [Hcb Hab] Hbc Hpa Hpb Hsh H.
   pose proof (candidate_type_eq _ _ _ H) as Hty. symmetry in Hty.
   assert (Hcl : s_class b = s_class a) by (rewrite Hca, Hcb, Hty; reflexivity).
   destruct (Hbc Hty) as [Hrf Hwh].
-  unfold candidate in H.
+  unfold candidate_old in H.
   destruct (periodic_old a) eqn:Epa; [discriminate|]. apply periodic_old_false in Epa.
   destruct (same_kind a b); simpl in H; [|discriminate].
   rewrite Hcl in Hab.
@@ -884,9 +884,9 @@ Qed.
 
 Lemma tr_check_sym : forall tol a b,
   (forall t t', s_tr a = Some t -> s_tr b = Some t' -> tr_shape_eq t t') ->
-  tr_check tol a b = Ok true -> tr_check tol b a = Ok true.
+  tr_check_old tol a b = Ok true -> tr_check_old tol b a = Ok true.
 Proof.
-  intros tol a b Hsh H. unfold tr_check in *.
+  intros tol a b Hsh H. unfold tr_check_old in *.
   destruct (s_tr a) as [t|], (s_tr b) as [t'|]; try discriminate; [|reflexivity].
   apply tr_equiv_sym; auto.
 Qed.
@@ -900,7 +900,7 @@ Proof.
   assert (Hcl : s_class b = s_class a) by (rewrite Hca, Hcb, Hty; reflexivity).
   assert (Hsh : forall t t', s_tr a = Some t -> s_tr b = Some t' -> tr_shape_eq t t')
     by (intros t t' H1 H2; exact (Htr a b t t' Ha Hb H1 H2)).
-  unfold candidate in *.
+  unfold candidate_old in *.
   destruct (periodic_old a) eqn:Epa; [discriminate|].
   rewrite (same_kind_sym b a). destruct (same_kind a b); simpl in *; [|discriminate].
   rewrite Hcl. destruct (s_class a) eqn:Ecl.
@@ -922,7 +922,7 @@ Qed.
 Theorem only_true_duplicates_partial : forall tol P del m,
   wf P -> Forall class_ok (p_surfs P) ->
   bc_uniform (p_surfs P) -> Forall periodic_visible (p_surfs P) -> tr_uniform (p_surfs P) ->
-  scan tol (p_surfs P) = Ok (del, m) ->
+  scan_old tol (p_surfs P) = Ok (del, m) ->
   forall d s sd ss, lookup d m = Some s ->
     In sd (p_surfs P) -> In ss (p_surfs P) -> s_num sd = d -> s_num ss = s -> true_dup tol ss sd.
 Proof.
@@ -939,11 +939,11 @@ Qed.
 (* ========================================================================= the call completes *)
 Lemma candidate_total : forall tol a b,
   (forall t t', s_tr a = Some t -> s_tr b = Some t' -> tr_shape_eq t t') ->
-  exists r, candidate tol a b = Ok r.
+  exists r, candidate_old tol a b = Ok r.
 Proof.
-  intros tol a b Hsh. unfold candidate.
-  assert (Ht : exists r, tr_check tol a b = Ok r).
-  { unfold tr_check. destruct (s_tr a) as [t|], (s_tr b) as [t'|]; try (eexists; reflexivity).
+  intros tol a b Hsh. unfold candidate_old.
+  assert (Ht : exists r, tr_check_old tol a b = Ok r).
+  { unfold tr_check_old. destruct (s_tr a) as [t|], (s_tr b) as [t'|]; try (eexists; reflexivity).
     apply tr_equiv_total. apply Hsh; reflexivity. }
   destruct (periodic_old a); [eexists; reflexivity|].
   destruct (negb (same_kind a b)); [eexists; reflexivity|].
@@ -965,12 +965,12 @@ Proof.
 Qed.
 
 Lemma scan_loop_total : forall tol all todo del m,
-  tr_uniform all -> incl todo all -> exists r, scan_loop tol all todo del m = Ok r.
+  tr_uniform all -> incl todo all -> exists r, scan_loop_old tol all todo del m = Ok r.
 Proof.
   intros tol all. induction todo as [|s r IH]; intros del m Htr Hincl; simpl; [eexists; reflexivity|].
   assert (Hr : incl r all) by (intros x Hx; apply Hincl; right; exact Hx).
   destruct (memZ (s_num s) del); [apply IH; assumption|].
-  assert (Hf : exists ms, find_dups tol s all = Ok ms).
+  assert (Hf : exists ms, find_dups_old tol s all = Ok ms).
   { apply filter_res_total. intros x Hx. apply candidate_total. intros t t' H1 H2.
     exact (Htr s x t t' (Hincl s (or_introl eq_refl)) Hx H1 H2). }
   destruct Hf as [ms Hms]. rewrite Hms.
@@ -979,11 +979,11 @@ Qed.
 
 Theorem dedup_completes : forall tol P,
   tr_uniform (p_surfs P) -> (forall s, In s (p_surfs P) -> in_sync (p_surfs P) (p_trs P) s) ->
-  exists P', dedup tol P = Ok P'.
+  exists P', dedup_old tol P = Ok P'.
 Proof.
-  intros tol P Htr Hsync. unfold dedup.
+  intros tol P Htr Hsync. unfold dedup_old.
   destruct (scan_loop_total tol (p_surfs P) (p_surfs P) [] [] Htr (incl_refl _)) as [[del m] Hs].
-  unfold scan. rewrite Hs.
+  unfold scan_old. rewrite Hs.
   rewrite map_res_id by (intros x Hx; apply in_sync_fix; apply Hsync; exact Hx).
   eexists; reflexivity.
 Qed.
@@ -1013,7 +1013,7 @@ Qed.
 
 Theorem no_dangling_periodic_partial : forall tol P P',
   (forall s, In s (p_surfs P) -> s_oldper s = 0 /\ s_perptr s = 0) ->
-  dedup tol P = Ok P' -> forall s', In s' (p_surfs P') -> s_perptr s' = 0.
+  dedup_old tol P = Ok P' -> forall s', In s' (p_surfs P') -> s_perptr s' = 0.
 Proof.
   intros tol P P' Hnp Hd s' Hin. apply dedup_inv in Hd. destruct Hd as [del [m [s2 [_ [Hm ->]]]]].
   simpl in Hin. apply remove_all_incl in Hin. eapply sup_all_perptr0; eauto.
@@ -1021,11 +1021,11 @@ Qed.
 
 (* ========================================================================= the map, as the cells receive it *)
 Theorem map_justified : forall tol P del m,
-  scan tol (p_surfs P) = Ok (del, m) ->
+  scan_old tol (p_surfs P) = Ok (del, m) ->
   (forall n, In n del <-> lookup n m <> None) /\
   (forall d s, lookup d m = Some s ->
      exists sd ss, In sd (p_surfs P) /\ In ss (p_surfs P) /\ s_num sd = d /\ s_num ss = s /\
-                   s_num sd <> s_num ss /\ s_type sd = s_type ss /\ candidate tol ss sd = Ok true).
+                   s_num sd <> s_num ss /\ s_type sd = s_type ss /\ candidate_old tol ss sd = Ok true).
 Proof.
   intros tol P del m Hs. destruct (scan_inv_basic _ _ _ _ Hs) as [Hk Hj]. split; [exact Hk|].
   intros d s Hl. destruct (Hj d s Hl) as [sd [ss [H1 [H2 [H3 [H4 H5]]]]]].
@@ -1036,7 +1036,7 @@ Qed.
 
 (* with a symmetric test a survivor is never removed itself: chains a~b~c need no second pass *)
 Theorem survivors_survive : forall tol P del m,
-  wf P -> cand_sym tol (p_surfs P) -> scan tol (p_surfs P) = Ok (del, m) ->
+  wf P -> cand_sym tol (p_surfs P) -> scan_old tol (p_surfs P) = Ok (del, m) ->
   forall d s, lookup d m = Some s -> ~ In s del.
 Proof.
   intros tol P del m Hwf Hsym Hs. exact (proj1 (scan_inv_chain _ _ Hwf Hsym _ _ Hs)).
@@ -1044,7 +1044,7 @@ Qed.
 
 Theorem no_dangling_leaf_struct : forall tol P P' del m,
   wf P -> links P -> Forall class_ok (p_surfs P) -> planes_old_nonperiodic (p_surfs P) -> tr_uniform (p_surfs P) ->
-  scan tol (p_surfs P) = Ok (del, m) -> dedup tol P = Ok P' ->
+  scan_old tol (p_surfs P) = Ok (del, m) -> dedup_old tol P = Ok P' ->
   forall c', In c' (p_cells P') -> forall n, In n (leaf_surfs (c_geom c')) -> ~ In n del.
 Proof.
   intros tol P P' del m Hwf Hl Hok Hpl Htr. apply no_dangling_leaf; auto. apply cand_sym_struct; assumption.
@@ -1105,7 +1105,7 @@ Proof.
 Qed.
 
 Definition merged_pair (tol : Q) (P : problem) (sd ss : surface) : Prop :=
-  exists del m, scan tol (p_surfs P) = Ok (del, m) /\ In sd (p_surfs P) /\ In ss (p_surfs P) /\
+  exists del m, scan_old tol (p_surfs P) = Ok (del, m) /\ In sd (p_surfs P) /\ In ss (p_surfs P) /\
                 lookup (s_num sd) m = Some (s_num ss).
 
 (* boundary condition is never compared *)
@@ -1154,7 +1154,7 @@ Qed.
 (* a survivor removed later: a cell is left pointing at a surface that is no longer in the problem *)
 Theorem no_dangling_leaf_refuted : exists tol P P' del m c' n,
   wf P /\ links P /\ Forall class_ok (p_surfs P) /\ planes_old_nonperiodic (p_surfs P) /\
-  scan tol (p_surfs P) = Ok (del, m) /\ dedup tol P = Ok P' /\
+  scan_old tol (p_surfs P) = Ok (del, m) /\ dedup_old tol P = Ok P' /\
   In c' (p_cells P') /\ In n (leaf_surfs (c_geom c')) /\ In n del /\ ~ In n (map s_num (p_surfs P')).
 Proof.
   exists tol4, w_dangle.
@@ -1170,7 +1170,7 @@ Qed.
 
 (* the pointer re-resolution of the call undoes an earlier edit of a surface that is no duplicate *)
 Theorem survivors_untouched_refuted : exists tol P P' m,
-  wf P /\ Forall class_ok (p_surfs P) /\ scan tol (p_surfs P) = Ok ([], m) /\ dedup tol P = Ok P' /\
+  wf P /\ Forall class_ok (p_surfs P) /\ scan_old tol (p_surfs P) = Ok ([], m) /\ dedup_old tol P = Ok P' /\
   p_surfs P' <> p_surfs P.
 Proof.
   exists tol4, w_revert. eexists. exists [].
@@ -1182,7 +1182,7 @@ Qed.
 (* the surface a periodic surface points to is removed *)
 Theorem no_dangling_periodic_refuted : exists tol P P' s',
   wf P /\ Forall class_ok (p_surfs P) /\ (forall s, In s (p_surfs P) -> in_sync (p_surfs P) (p_trs P) s) /\
-  dedup tol P = Ok P' /\ In s' (p_surfs P') /\ s_perptr s' <> 0 /\ ~ In (s_perptr s') (map s_num (p_surfs P')).
+  dedup_old tol P = Ok P' /\ In s' (p_surfs P') /\ s_perptr s' <> 0 /\ ~ In (s_perptr s') (map s_num (p_surfs P')).
 Proof.
   exists tol4, w_per. eexists. exists (w_px 4 5 false 2 2 0 None).
   split; [apply w_wf; simpl; auto|]. split; [apply w_class_ok; simpl; auto|].
@@ -1194,7 +1194,7 @@ Qed.
 (* a rotation given by 3 (5, 6) entries against one given by 9: IndexError escapes *)
 Theorem dedup_completes_refuted : exists tol P,
   wf P /\ Forall class_ok (p_surfs P) /\ (forall s, In s (p_surfs P) -> in_sync (p_surfs P) (p_trs P) s) /\
-  dedup tol P = Err IndexError.
+  dedup_old tol P = Err IndexError.
 Proof.
   exists tol4, w_index.
   split; [apply w_wf; simpl; auto 10|]. split; [apply w_class_ok; simpl; auto 10|].
@@ -1231,7 +1231,7 @@ Definition ex_del : list Z := [2; 5; 9; 11].
 Definition ex_map : list (Z * Z) := [(2, 3); (5, 4); (9, 8); (11, 10)].
 Local Close Scope string_scope.
 
-Lemma ex_scan : scan tol4 (p_surfs ex_prob) = Ok (ex_del, ex_map).
+Lemma ex_scan : scan_old tol4 (p_surfs ex_prob) = Ok (ex_del, ex_map).
 Proof. vm_compute. reflexivity. Qed.
 
 Lemma ex_wf : wf ex_prob.
@@ -1270,10 +1270,10 @@ Definition ex_after_cells : list cell :=
     mkCell 4 [] (GAnd (GNot (GCell 3)) (GAnd (GAnd (GSurf false 10) (GSurf true 10))
                                                   (GOr (GSurf false 4) (GSurf true 4)))) ].
 
-Definition ex_after : problem := match dedup tol4 ex_prob with Ok P' => P' | Err _ => ex_prob end.
+Definition ex_after : problem := match dedup_old tol4 ex_prob with Ok P' => P' | Err _ => ex_prob end.
 
 Lemma ex_dedup :
-  dedup tol4 ex_prob = Ok ex_after /\
+  dedup_old tol4 ex_prob = Ok ex_after /\
   map s_num (p_surfs ex_after) = [1; 3; 4; 6; 7; 8; 10; 12] /\ p_cells ex_after = ex_after_cells.
 Proof. split; [vm_compute; reflexivity | split; vm_compute; reflexivity]. Qed.
 
@@ -1306,8 +1306,8 @@ Definition w_twice : problem :=
 Theorem second_call_refuted : exists P P1 P2 c' n,
   wf P /\ links P /\ Forall class_ok (p_surfs P) /\ planes_old_nonperiodic (p_surfs P) /\ tr_uniform (p_surfs P) /\
   (forall s, In s (p_surfs P) -> in_sync (p_surfs P) (p_trs P) s) /\
-  dedup tol9 P = Ok P1 /\ p_surfs P1 = p_surfs P /\ ~ links P1 /\
-  dedup tol4 P1 = Ok P2 /\
+  dedup_old tol9 P = Ok P1 /\ p_surfs P1 = p_surfs P /\ ~ links P1 /\
+  dedup_old tol4 P1 = Ok P2 /\
   In c' (p_cells P2) /\ In n (leaf_surfs (c_geom c')) /\ ~ In n (map s_num (p_surfs P2)).
 Proof.
   exists w_twice. eexists. eexists. eexists. exists 2.
@@ -1325,7 +1325,7 @@ Proof.
 Qed.
 
 (* ######################################################################### the repaired variant (_fx) *)
-(* ========================================================================= the scan over any test *)
+(* ========================================================================= the scan_old over any test *)
 Section ScanG.
   Variable cand : surface -> surface -> res bool.
   Variable all : list surface.
@@ -1424,20 +1424,20 @@ End ScanG.
 Definition disp3 (all : list surface) : Prop :=
   forall s t, In s all -> s_tr s = Some t -> List.length (t_disp t) = 3%nat.
 
-Lemma candidate_fx_same_kind : forall tol a b, candidate_fx tol a b = Ok true -> same_kind a b = true.
+Lemma candidate_fx_same_kind : forall tol a b, candidate tol a b = Ok true -> same_kind a b = true.
 Proof.
-  intros tol a b. unfold candidate_fx.
+  intros tol a b. unfold candidate.
   destruct (periodic_now a); [discriminate|].
   destruct (same_kind a b); [reflexivity | simpl; discriminate].
 Qed.
 
-Lemma candidate_fx_num_neq : forall tol a b, candidate_fx tol a b = Ok true -> s_num b <> s_num a.
+Lemma candidate_fx_num_neq : forall tol a b, candidate tol a b = Ok true -> s_num b <> s_num a.
 Proof.
   intros tol a b H. apply candidate_fx_same_kind in H. unfold same_kind in H.
   apply andb_true_iff in H. destruct H as [H _]. apply negb_true_iff in H. apply Z.eqb_neq in H. exact H.
 Qed.
 
-Lemma candidate_fx_type_eq : forall tol a b, candidate_fx tol a b = Ok true -> s_type b = s_type a.
+Lemma candidate_fx_type_eq : forall tol a b, candidate tol a b = Ok true -> s_type b = s_type a.
 Proof.
   intros tol a b H. apply candidate_fx_same_kind in H. unfold same_kind in H.
   apply andb_true_iff in H. destruct H as [_ H]. apply String.eqb_eq in H. exact H.
@@ -1460,9 +1460,9 @@ Qed.
 
 Lemma tr_equiv_fx_sym : forall tol t t',
   List.length (t_disp t) = List.length (t_disp t') ->
-  tr_equivalent_fx tol t t' = Ok true -> tr_equivalent_fx tol t' t = Ok true.
+  tr_equivalent tol t t' = Ok true -> tr_equivalent tol t' t = Ok true.
 Proof.
-  intros tol t t' Hd H. unfold tr_equivalent_fx in *.
+  intros tol t t' Hd H. unfold tr_equivalent in *.
   destruct (Bool.eqb (t_deg t) (t_deg t')) eqn:Ed; simpl in H; [|discriminate].
   destruct (Bool.eqb (t_m2a t) (t_m2a t')) eqn:Em; simpl in H; [|discriminate].
   apply Bool.eqb_prop in Ed. apply Bool.eqb_prop in Em. rewrite <- Ed, <- Em, !Bool.eqb_reflx. simpl.
@@ -1475,9 +1475,9 @@ Qed.
 
 Lemma tr_equiv_fx_same : forall tol t t',
   List.length (t_disp t) = List.length (t_disp t') -> (0 < tol)%Q ->
-  tr_equivalent_fx tol t t' = Ok true -> trdata_same tol (Some t) (Some t').
+  tr_equivalent tol t t' = Ok true -> trdata_same tol (Some t) (Some t').
 Proof.
-  intros tol t t' Hd Hpos H. unfold tr_equivalent_fx in H. simpl.
+  intros tol t t' Hd Hpos H. unfold tr_equivalent in H. simpl.
   destruct (Bool.eqb (t_deg t) (t_deg t')) eqn:Ed; simpl in H; [|discriminate].
   destruct (Bool.eqb (t_m2a t) (t_m2a t')) eqn:Em; simpl in H; [|discriminate].
   apply Bool.eqb_prop in Ed. apply Bool.eqb_prop in Em.
@@ -1493,9 +1493,9 @@ Proof.
 Qed.
 
 Lemma tr_equiv_fx_total : forall tol t t',
-  List.length (t_disp t) = List.length (t_disp t') -> exists b, tr_equivalent_fx tol t t' = Ok b.
+  List.length (t_disp t) = List.length (t_disp t') -> exists b, tr_equivalent tol t t' = Ok b.
 Proof.
-  intros tol t t' Hd. unfold tr_equivalent_fx.
+  intros tol t t' Hd. unfold tr_equivalent.
   destruct (negb (Bool.eqb (t_deg t) (t_deg t'))); [eexists; reflexivity|].
   destruct (negb (Bool.eqb (t_m2a t) (t_m2a t'))); [eexists; reflexivity|].
   destruct (vec_loop_total tol _ _ Hd) as [b Hb]. rewrite Hb. destruct b; [|eexists; reflexivity].
@@ -1508,30 +1508,30 @@ Section Pair.
   Variables a b : surface.
   Hypothesis Hsh : forall t t', s_tr a = Some t -> s_tr b = Some t' -> List.length (t_disp t) = List.length (t_disp t').
 
-  Lemma tr_check_fx_sym : tr_check_fx tol a b = Ok true -> tr_check_fx tol b a = Ok true.
+  Lemma tr_check_fx_sym : tr_check tol a b = Ok true -> tr_check tol b a = Ok true.
   Proof.
-    intro H. unfold tr_check_fx in *.
+    intro H. unfold tr_check in *.
     destruct (s_tr a) as [t|], (s_tr b) as [t'|]; try discriminate; [|reflexivity].
     apply tr_equiv_fx_sym; auto.
   Qed.
 
-  Lemma tr_check_fx_same : (0 < tol)%Q -> tr_check_fx tol a b = Ok true -> trdata_same tol (s_tr a) (s_tr b).
+  Lemma tr_check_fx_same : (0 < tol)%Q -> tr_check tol a b = Ok true -> trdata_same tol (s_tr a) (s_tr b).
   Proof.
-    intros Hpos H. unfold tr_check_fx in H.
+    intros Hpos H. unfold tr_check in H.
     destruct (s_tr a) as [t|], (s_tr b) as [t'|]; try discriminate.
     - apply tr_equiv_fx_same; auto.
     - exact I.
   Qed.
 
-  Lemma tr_check_fx_total : exists r, tr_check_fx tol a b = Ok r.
+  Lemma tr_check_fx_total : exists r, tr_check tol a b = Ok r.
   Proof.
-    unfold tr_check_fx. destruct (s_tr a) as [t|], (s_tr b) as [t'|]; try (eexists; reflexivity).
+    unfold tr_check. destruct (s_tr a) as [t|], (s_tr b) as [t'|]; try (eexists; reflexivity).
     apply tr_equiv_fx_total. apply Hsh; reflexivity.
   Qed.
 
-  Lemma candidate_fx_total : exists r, candidate_fx tol a b = Ok r.
+  Lemma candidate_fx_total : exists r, candidate tol a b = Ok r.
   Proof.
-    unfold candidate_fx. destruct tr_check_fx_total as [r Hr].
+    unfold candidate. destruct tr_check_fx_total as [r Hr].
     destruct (periodic_now a); [eexists; reflexivity|].
     destruct (negb (same_kind a b)); [eexists; reflexivity|].
     destruct (s_class a); try (eexists; reflexivity);
@@ -1542,12 +1542,12 @@ Section Pair.
         [rewrite Hr|]; eexists; reflexivity.
   Qed.
 
-  Lemma candidate_fx_true_dup : class_ok a -> class_ok b -> candidate_fx tol a b = Ok true -> true_dup tol a b.
+  Lemma candidate_fx_true_dup : class_ok a -> class_ok b -> candidate tol a b = Ok true -> true_dup tol a b.
   Proof.
     intros [Hca Haa] [Hcb Hab] H.
     pose proof (candidate_fx_type_eq _ _ _ H) as Hty. symmetry in Hty.
     assert (Hcl : s_class b = s_class a) by (rewrite Hca, Hcb, Hty; reflexivity).
-    unfold candidate_fx in H.
+    unfold candidate in H.
     destruct (periodic_now a) eqn:Epa; [discriminate|].
     destruct (same_kind a b); simpl in H; [|discriminate].
     rewrite Hcl in Hab.
@@ -1579,12 +1579,12 @@ Section Pair.
       + rewrite Hx, Hy. repeat constructor; apply near_lt; assumption.
   Qed.
 
-  Lemma candidate_fx_sym1 : class_ok a -> class_ok b -> candidate_fx tol a b = Ok true -> candidate_fx tol b a = Ok true.
+  Lemma candidate_fx_sym1 : class_ok a -> class_ok b -> candidate tol a b = Ok true -> candidate tol b a = Ok true.
   Proof.
     intros [Hca _] [Hcb _] H.
     pose proof (candidate_fx_type_eq _ _ _ H) as Hty.
     assert (Hcl : s_class b = s_class a) by (rewrite Hca, Hcb, Hty; reflexivity).
-    unfold candidate_fx in *.
+    unfold candidate in *.
     destruct (periodic_now a) eqn:Epa; [discriminate|].
     rewrite (same_kind_sym b a). destruct (same_kind a b); simpl in *; [|discriminate].
     rewrite Hcl. rewrite (may_merge_sym b a).
@@ -1614,7 +1614,7 @@ Definition loop_step (acc : list Z) (kv : Z * Z) : list Z :=
   let acc' := remove_first (fst kv) acc in if memZ (snd kv) acc' then acc' else (acc' ++ [snd kv])%list.
 
 Lemma surfs_after_fx_unfold : forall nd g cs,
-  surfs_after_fx nd g cs = fold_left loop_step nd (fold_left (sa_step nd) (leaf_surfs g) cs).
+  surfs_after nd g cs = fold_left loop_step nd (fold_left (sa_step nd) (leaf_surfs g) cs).
 Proof. reflexivity. Qed.
 
 Lemma sa_step_incl : forall nd acc n x, In x acc -> In x (sa_step nd acc n).
@@ -1714,18 +1714,18 @@ Proof.
   destruct H as [H|H]; [inversion H; subst; rewrite Z.eqb_refl in E; discriminate | eapply IH; exact H].
 Qed.
 
-Lemma cell_dedup_fx_num : forall m c, c_num (cell_dedup_fx m c) = c_num c.
-Proof. intros m c. unfold cell_dedup_fx. destruct (restrict (c_surfs c) m); reflexivity. Qed.
+Lemma cell_dedup_fx_num : forall m c, c_num (cell_dedup m c) = c_num c.
+Proof. intros m c. unfold cell_dedup. destruct (restrict (c_surfs c) m); reflexivity. Qed.
 
-Lemma cell_dedup_fx_geom : forall m c, c_geom (cell_dedup_fx m c) = c_geom (cell_dedup m c).
-Proof. intros m c. unfold cell_dedup_fx, cell_dedup. destruct (restrict (c_surfs c) m); reflexivity. Qed.
+Lemma cell_dedup_fx_geom : forall m c, c_geom (cell_dedup m c) = c_geom (cell_dedup_old m c).
+Proof. intros m c. unfold cell_dedup, cell_dedup_old. destruct (restrict (c_surfs c) m); reflexivity. Qed.
 
 Lemma cell_dedup_fx_links : forall m c,
   (forall d s, lookup d m = Some s -> lookup s m = None) ->
   incl (leaf_surfs (c_geom c)) (c_surfs c) ->
-  incl (leaf_surfs (c_geom (cell_dedup_fx m c))) (c_surfs (cell_dedup_fx m c)).
+  incl (leaf_surfs (c_geom (cell_dedup m c))) (c_surfs (cell_dedup m c)).
 Proof.
-  intros m c Hsurv Hl. unfold cell_dedup_fx.
+  intros m c Hsurv Hl. unfold cell_dedup.
   destruct (restrict (c_surfs c) m) as [|kv0 nd0] eqn:Hr; [exact Hl|].
   set (nd := kv0 :: nd0) in *. simpl c_geom. simpl c_surfs.
   rewrite hs_dedup_spec, leaf_surfs_map_leaves, surfs_after_fx_unfold.
@@ -1754,16 +1754,16 @@ Lemma disp3_uniform : forall all, disp3 all -> disp_uniform all.
 Proof. intros all H a b t t' Ha Hb H1 H2. rewrite (H a t Ha H1), (H b t' Hb H2). reflexivity. Qed.
 
 Lemma scan_fx_inv_basic : forall tol all del m,
-  scan_fx tol all = Ok (del, m) -> inv_basic_g (candidate_fx tol) all del m.
+  scan tol all = Ok (del, m) -> inv_basic_g (candidate tol) all del m.
 Proof.
-  intros tol all del m H. unfold scan_fx in H.
+  intros tol all del m H. unfold scan in H.
   eapply scan_loop_g_inv_basic; [apply incl_refl | | exact H].
   split; [intro n; simpl; split; [tauto | intro H0; apply H0; reflexivity] | intros d s H0; discriminate].
 Qed.
 
 Lemma cand_fx_sym : forall tol all,
   Forall class_ok all -> disp_uniform all ->
-  forall a b, In a all -> In b all -> candidate_fx tol a b = Ok true -> candidate_fx tol b a = Ok true.
+  forall a b, In a all -> In b all -> candidate tol a b = Ok true -> candidate tol b a = Ok true.
 Proof.
   intros tol all Hok Hd a b Ha Hb H. rewrite Forall_forall in Hok.
   apply candidate_fx_sym1; auto. intros t t' H1 H2. exact (Hd a b t t' Ha Hb H1 H2).
@@ -1771,9 +1771,9 @@ Qed.
 
 Lemma scan_fx_inv_chain : forall tol all del m,
   NoDup (map s_num all) -> Forall class_ok all -> disp_uniform all ->
-  scan_fx tol all = Ok (del, m) -> inv_chain_g (candidate_fx tol) all del m.
+  scan tol all = Ok (del, m) -> inv_chain_g (candidate tol) all del m.
 Proof.
-  intros tol all del m Hnd Hok Hd H. unfold scan_fx in H.
+  intros tol all del m Hnd Hok Hd H. unfold scan in H.
   eapply scan_loop_g_inv_chain; [exact (candidate_fx_num_neq tol) | exact Hnd | apply cand_fx_sym; assumption
                                 | apply incl_refl | | exact H].
   split; [intros d s H0; discriminate | intros d ss _ H0; discriminate].
@@ -1792,19 +1792,19 @@ Proof.
   destruct (record_matches (map s_num ms) (s_num s) del m) as [d1 m1]. apply IH; assumption.
 Qed.
 
-Lemma scan_fx_total : forall tol all, disp_uniform all -> exists r, scan_fx tol all = Ok r.
+Lemma scan_fx_total : forall tol all, disp_uniform all -> exists r, scan tol all = Ok r.
 Proof.
-  intros tol all Hd. unfold scan_fx. apply scan_loop_g_total; [|apply incl_refl].
+  intros tol all Hd. unfold scan. apply scan_loop_g_total; [|apply incl_refl].
   intros s x Hs Hx. apply candidate_fx_total. intros t t' H1 H2. exact (Hd s x t t' Hs Hx H1 H2).
 Qed.
 
 Lemma dedup_fx_inv : forall tol P P',
-  dedup_fx tol P = Ok P' ->
-  exists del m, scan_fx tol (p_surfs P) = Ok (del, m) /\
-    P' = mkProb (remove_all del (map (repoint_periodic m) (p_surfs P))) (map (cell_dedup_fx m) (p_cells P)) (p_trs P).
+  dedup tol P = Ok P' ->
+  exists del m, scan tol (p_surfs P) = Ok (del, m) /\
+    P' = mkProb (remove_all del (map (repoint_periodic m) (p_surfs P))) (map (cell_dedup m) (p_cells P)) (p_trs P).
 Proof.
-  intros tol P P' H. unfold dedup_fx in H.
-  destruct (scan_fx tol (p_surfs P)) as [[del m]|] eqn:Hs; [|discriminate].
+  intros tol P P' H. unfold dedup in H.
+  destruct (scan tol (p_surfs P)) as [[del m]|] eqn:Hs; [|discriminate].
   inversion H; subst. exists del, m. auto.
 Qed.
 
@@ -1834,7 +1834,7 @@ Qed.
 (* --- only true duplicates are merged: no side condition on boundary conditions, periodicity or rotations *)
 Theorem fx_only_true_duplicates : forall tol P del m,
   wf P -> Forall class_ok (p_surfs P) -> disp_uniform (p_surfs P) ->
-  scan_fx tol (p_surfs P) = Ok (del, m) ->
+  scan tol (p_surfs P) = Ok (del, m) ->
   forall d s sd ss, lookup d m = Some s ->
     In sd (p_surfs P) -> In ss (p_surfs P) -> s_num sd = d -> s_num ss = s -> true_dup tol ss sd.
 Proof.
@@ -1849,7 +1849,7 @@ Proof.
 Qed.
 
 Theorem fx_cells_structure : forall tol P P' del m,
-  scan_fx tol (p_surfs P) = Ok (del, m) -> dedup_fx tol P = Ok P' ->
+  scan tol (p_surfs P) = Ok (del, m) -> dedup tol P = Ok P' ->
   Forall2 (fun c c' =>
              c_num c' = c_num c /\
              exists f, (forall n, lookup n m = None -> f n = n) /\
@@ -1870,7 +1870,7 @@ Proof.
 Qed.
 
 Theorem fx_region : forall tol P P' del m,
-  scan_fx tol (p_surfs P) = Ok (del, m) -> dedup_fx tol P = Ok P' ->
+  scan tol (p_surfs P) = Ok (del, m) -> dedup tol P = Ok P' ->
   Forall2 (fun c c' =>
              c_num c' = c_num c /\ shape (c_geom c') = shape (c_geom c) /\
              forall es ec, identifies m es -> region es ec (c_geom c') = region es ec (c_geom c))
@@ -1886,7 +1886,7 @@ Qed.
 (* survivors are never keys of the map *)
 Lemma fx_survivors_not_keys : forall tol P del m,
   wf P -> Forall class_ok (p_surfs P) -> disp_uniform (p_surfs P) ->
-  scan_fx tol (p_surfs P) = Ok (del, m) ->
+  scan tol (p_surfs P) = Ok (del, m) ->
   forall d s, lookup d m = Some s -> lookup s m = None.
 Proof.
   intros tol P del m Hwf Hok Hdu Hs d s Hl.
@@ -1899,7 +1899,7 @@ Qed.
 (* --- the surfaces: removed ones are gone, the others are untouched except a periodic pointer that followed
        its partner to the survivor *)
 Theorem fx_surfaces : forall tol P P' del m,
-  wf P -> scan_fx tol (p_surfs P) = Ok (del, m) -> dedup_fx tol P = Ok P' ->
+  wf P -> scan tol (p_surfs P) = Ok (del, m) -> dedup tol P = Ok P' ->
   p_surfs P' = filter (fun s => negb (memZ (s_num s) del)) (map (repoint_periodic m) (p_surfs P)) /\
   (forall s, s_perptr s = 0 \/ lookup (s_perptr s) m = None -> repoint_periodic m s = s) /\
   map s_num (p_surfs P') = filter (fun n => negb (memZ n del)) (map s_num (p_surfs P)).
@@ -1916,7 +1916,7 @@ Qed.
 (* --- no leaf refers to a removed surface, and cell.surfaces keeps covering the leaves: the call can be repeated *)
 Theorem fx_no_dangling_leaf : forall tol P P' del m,
   wf P -> links P -> Forall class_ok (p_surfs P) -> disp_uniform (p_surfs P) ->
-  scan_fx tol (p_surfs P) = Ok (del, m) -> dedup_fx tol P = Ok P' ->
+  scan tol (p_surfs P) = Ok (del, m) -> dedup tol P = Ok P' ->
   links P' /\
   forall c', In c' (p_cells P') -> forall n, In n (leaf_surfs (c_geom c')) -> ~ In n del.
 Proof.
@@ -1939,7 +1939,7 @@ Qed.
 Theorem fx_no_dangling_periodic : forall tol P P' del m,
   wf P -> Forall class_ok (p_surfs P) -> disp_uniform (p_surfs P) ->
   (forall s, In s (p_surfs P) -> s_perptr s = 0 \/ In (s_perptr s) (map s_num (p_surfs P))) ->
-  scan_fx tol (p_surfs P) = Ok (del, m) -> dedup_fx tol P = Ok P' ->
+  scan tol (p_surfs P) = Ok (del, m) -> dedup tol P = Ok P' ->
   forall s', In s' (p_surfs P') -> s_perptr s' = 0 \/ In (s_perptr s') (map s_num (p_surfs P')).
 Proof.
   intros tol P P' del m Hwf Hok Hdu Hper Hs Hd s' Hin.
@@ -1958,17 +1958,17 @@ Proof.
 Qed.
 
 (* --- the call returns *)
-Theorem fx_completes : forall tol P, disp_uniform (p_surfs P) -> exists P', dedup_fx tol P = Ok P'.
+Theorem fx_completes : forall tol P, disp_uniform (p_surfs P) -> exists P', dedup tol P = Ok P'.
 Proof.
-  intros tol P Hd. unfold dedup_fx. destruct (scan_fx_total tol _ Hd) as [[del m] Hs]. rewrite Hs.
+  intros tol P Hd. unfold dedup. destruct (scan_fx_total tol _ Hd) as [[del m] Hs]. rewrite Hs.
   eexists; reflexivity.
 Qed.
 
 Lemma fx_witnesses :
-  scan_fx tol4 (p_surfs w_bc) = Ok ([], []) /\ scan_fx tol4 (p_surfs w_per) = Ok ([], []) /\
-  scan_fx tol4 (p_surfs w_rot) = Ok ([], []) /\ scan_fx tol4 (p_surfs w_dangle) = Ok ([2], [(2, 1)]) /\
-  dedup_fx tol4 w_revert = Ok w_revert /\ scan_fx tol4 (p_surfs w_index) = Ok ([], []) /\
-  scan_fx tol4 (p_surfs ex_prob) = Ok (ex_del, ex_map) /\
+  scan tol4 (p_surfs w_bc) = Ok ([], []) /\ scan tol4 (p_surfs w_per) = Ok ([], []) /\
+  scan tol4 (p_surfs w_rot) = Ok ([], []) /\ scan tol4 (p_surfs w_dangle) = Ok ([2], [(2, 1)]) /\
+  dedup tol4 w_revert = Ok w_revert /\ scan tol4 (p_surfs w_index) = Ok ([], []) /\
+  scan tol4 (p_surfs ex_prob) = Ok (ex_del, ex_map) /\
   disp_uniform (p_surfs ex_prob) /\ disp_uniform (p_surfs w_index).
 Proof.
   repeat (split; [vm_compute; reflexivity|]). split.
@@ -1980,10 +1980,114 @@ Qed.
 
 (* ========================================================================= data-block cell modifier cards *)
 Theorem cellmod_always_fails : forall tol P r,
-  scan tol (p_surfs P) = Ok r -> dedup_call true tol P = Err MalformedInputError.
-Proof. intros tol P r H. unfold dedup_call. rewrite H. reflexivity. Qed.
+  scan_old tol (p_surfs P) = Ok r -> dedup_call_old true tol P = Err MalformedInputError.
+Proof. intros tol P r H. unfold dedup_call_old. rewrite H. reflexivity. Qed.
 
-Theorem no_cellmod_same : forall tol P, dedup_call false tol P = dedup tol P.
+Theorem no_cellmod_same : forall tol P, dedup_call_old false tol P = dedup_old tol P.
 Proof.
-  intros tol P. unfold dedup_call, dedup. destruct (scan tol (p_surfs P)) as [[del m]|]; reflexivity.
+  intros tol P. unfold dedup_call_old, dedup_old. destruct (scan_old tol (p_surfs P)) as [[del m]|]; reflexivity.
 Qed.
+
+(* ========================================================================= more about the call at HEAD *)
+Theorem fx_map_justified : forall tol P del m,
+  scan tol (p_surfs P) = Ok (del, m) ->
+  (forall n, In n del <-> lookup n m <> None) /\
+  (forall d s, lookup d m = Some s ->
+     exists sd ss, In sd (p_surfs P) /\ In ss (p_surfs P) /\ s_num sd = d /\ s_num ss = s /\
+                   s_num sd <> s_num ss /\ s_type sd = s_type ss /\ candidate tol ss sd = Ok true).
+Proof.
+  intros tol P del m Hs. destruct (scan_fx_inv_basic _ _ _ _ Hs) as [Hk Hj]. split; [exact Hk|].
+  intros d s Hl. destruct (Hj d s Hl) as [sd [ss [H1 [H2 [H3 [H4 H5]]]]]].
+  exists sd, ss. repeat split; auto.
+  - exact (candidate_fx_num_neq _ _ _ H5).
+  - exact (candidate_fx_type_eq _ _ _ H5).
+Qed.
+
+Theorem fx_survivors_survive : forall tol P del m,
+  wf P -> Forall class_ok (p_surfs P) -> disp_uniform (p_surfs P) ->
+  scan tol (p_surfs P) = Ok (del, m) ->
+  forall d s, lookup d m = Some s -> ~ In s del /\ lookup s m = None.
+Proof.
+  intros tol P del m Hwf Hok Hdu Hs d s Hl.
+  pose proof (fx_survivors_not_keys _ _ _ _ Hwf Hok Hdu Hs _ _ Hl) as Hn. split; [|exact Hn].
+  destruct (scan_fx_inv_basic _ _ _ _ Hs) as [Hk _]. intro Hd. apply Hk in Hd. exact (Hd Hn).
+Qed.
+
+Theorem fx_senses : forall tol P P' del m,
+  scan tol (p_surfs P) = Ok (del, m) -> dedup tol P = Ok P' ->
+  Forall2 (fun c c' =>
+             shape (c_geom c') = shape (c_geom c) /\
+             ((forall n, In n (leaf_surfs (c_geom c)) -> ~ In n del) -> c_geom c' = c_geom c))
+          (p_cells P) (p_cells P').
+Proof.
+  intros tol P P' del m Hs Hd. pose proof (fx_cells_structure _ _ _ _ _ Hs Hd) as H.
+  destruct (scan_fx_inv_basic _ _ _ _ Hs) as [Hk _].
+  eapply Forall2_imp; [|exact H]. intros c c' [Hn [f [Hnk [_ [_ Hg]]]]]. split.
+  - rewrite Hg. apply shape_map_leaves.
+  - intro Hno. rewrite Hg. apply map_leaves_id. intros n Hin. apply Hnk.
+    destruct (lookup n m) eqn:E; [|reflexivity]. exfalso. apply (Hno n Hin). apply Hk. congruence.
+Qed.
+
+Theorem fx_removed_are_gone : forall tol P P' del m,
+  wf P -> scan tol (p_surfs P) = Ok (del, m) -> dedup tol P = Ok P' ->
+  forall s', In s' (p_surfs P') -> ~ In (s_num s') del.
+Proof.
+  intros tol P P' del m Hwf Hs Hd s' Hin. destruct (fx_surfaces _ _ _ _ _ Hwf Hs Hd) as [Hsf _].
+  rewrite Hsf in Hin. apply filter_In in Hin. destruct Hin as [_ Hin].
+  apply negb_true_iff in Hin. apply memZ_false in Hin. exact Hin.
+Qed.
+
+Lemma repoint_fields : forall m s,
+  s_class (repoint_periodic m s) = s_class s /\ s_type (repoint_periodic m s) = s_type s /\
+  s_consts (repoint_periodic m s) = s_consts s /\ s_tr (repoint_periodic m s) = s_tr s /\
+  s_refl (repoint_periodic m s) = s_refl s /\ s_white (repoint_periodic m s) = s_white s.
+Proof.
+  intros m s. unfold repoint_periodic.
+  destruct (if Z.eqb (s_perptr s) 0 then None else lookup (s_perptr s) m); simpl; repeat split.
+Qed.
+
+(* the hypotheses of the theorems hold again after the call: it can be repeated *)
+Theorem fx_invariants_kept : forall tol P P' del m,
+  wf P -> links P -> Forall class_ok (p_surfs P) -> disp_uniform (p_surfs P) ->
+  scan tol (p_surfs P) = Ok (del, m) -> dedup tol P = Ok P' ->
+  wf P' /\ links P' /\ Forall class_ok (p_surfs P') /\ disp_uniform (p_surfs P').
+Proof.
+  intros tol P P' del m Hwf Hl Hok Hdu Hs Hd.
+  destruct (fx_surfaces _ _ _ _ _ Hwf Hs Hd) as [Hsf [_ Hnums]].
+  destruct (fx_no_dangling_leaf _ _ _ _ _ Hwf Hl Hok Hdu Hs Hd) as [Hl' _].
+  assert (Hsrc : forall s', In s' (p_surfs P') -> exists s, In s (p_surfs P) /\ s' = repoint_periodic m s).
+  { intros s' Hin. rewrite Hsf in Hin. apply filter_In in Hin. destruct Hin as [Hin _].
+    apply in_map_iff in Hin. destruct Hin as [s [<- Hin]]. exists s. auto. }
+  split; [|split; [exact Hl'|split]].
+  - unfold wf. rewrite Hnums. apply NoDup_filter. exact Hwf.
+  - apply Forall_forall. intros s' Hin. destruct (Hsrc s' Hin) as [s [Hs0 ->]].
+    rewrite Forall_forall in Hok. destruct (Hok s Hs0) as [H1 H2].
+    destruct (repoint_fields m s) as [Ec [Et [Ek _]]]. unfold class_ok. rewrite Ec, Et, Ek. auto.
+  - intros a b t t' Ha Hb H1 H2. destruct (Hsrc a Ha) as [a0 [Ha0 ->]]. destruct (Hsrc b Hb) as [b0 [Hb0 ->]].
+    destruct (repoint_fields m a0) as [_ [_ [_ [Ea _]]]]. destruct (repoint_fields m b0) as [_ [_ [_ [Eb _]]]].
+    rewrite Ea in H1. rewrite Eb in H2. exact (Hdu a0 b0 t t' Ha0 Hb0 H1 H2).
+Qed.
+
+(* a non-trivial state satisfying every hypothesis: the example problem *)
+Lemma ex_disp_uniform : disp_uniform (p_surfs ex_prob).
+Proof. exact (proj1 (proj2 (proj2 (proj2 (proj2 (proj2 (proj2 fx_witnesses))))))). Qed.
+
+Lemma ex_scan_head : scan tol4 (p_surfs ex_prob) = Ok (ex_del, ex_map).
+Proof. vm_compute. reflexivity. Qed.
+
+Definition ex_after_head : problem := match dedup tol4 ex_prob with Ok P' => P' | Err _ => ex_prob end.
+Definition ex_after_cells_head : list cell :=
+  [ mkCell 1 [1; 3; 4] (GAnd (GSurf true 1) (GOr (GSurf false 3) (GNot (GSurf true 4))));
+    mkCell 2 [3; 6; 8] (GAnd (GAnd (GSurf true 3) (GSurf false 3)) (GOr (GSurf false 6) (GSurf true 8)));
+    mkCell 3 [6; 7; 12] (GOr (GSurf false 6) (GAnd (GSurf true 7) (GSurf false 12)));
+    mkCell 4 [10; 4] (GAnd (GNot (GCell 3)) (GAnd (GAnd (GSurf false 10) (GSurf true 10))
+                                                        (GOr (GSurf false 4) (GSurf true 4)))) ].
+
+Lemma ex_dedup_head :
+  dedup tol4 ex_prob = Ok ex_after_head /\
+  map s_num (p_surfs ex_after_head) = [1; 3; 4; 6; 7; 8; 10; 12] /\ p_cells ex_after_head = ex_after_cells_head /\
+  map (fun c => region ex_es (fun _ => false) (c_geom c)) ex_after_cells_head = [true; false; true; false].
+Proof. repeat split; vm_compute; reflexivity. Qed.
+
+Lemma ex_perptr : forall s, In s (p_surfs ex_prob) -> s_perptr s = 0 \/ In (s_perptr s) (map s_num (p_surfs ex_prob)).
+Proof. intros s Hs. in_cases Hs; left; reflexivity. Qed.
